@@ -63,6 +63,9 @@ func main() {
 		fmt.Println(strings.Join(ids, " "))
 		return
 	}
+	if t := os.Getenv("PIKOCHECK_TAGS"); t != "" {
+		defaultTags = t
+	}
 	pd := props[*prop]
 	if pd == nil {
 		fmt.Printf("unknown property %q\n", *prop)
@@ -84,8 +87,15 @@ func main() {
 		var v []Obligation
 		if c != nil {
 			c.applyFloors()
+			known, _ := loadKnown(filepath.Join(*verif, "known_findings.json"))
+			kf := map[string]bool{}
+			for _, k := range known {
+				if k.Property == pd.id && k.Status == "finding" {
+					kf[k.Key] = true
+				}
+			}
 			for _, o := range c.Obs {
-				if o.Status != "discharged" {
+				if o.Status != "discharged" && !kf[o.Key] {
 					v = append(v, o)
 				}
 			}
@@ -114,7 +124,12 @@ func main() {
 
 // analyse loads the tree and evaluates the rules of one property. A panic in a
 // rule is an undecided obligation, never a pass.
+var defaultTags string
+
 func analyse(pd *propDef, lo loadOpts) (c *Ctx, code int) {
+	if lo.tags == "" {
+		lo.tags = defaultTags
+	}
 	p, err := loadProg(lo)
 	if err != nil {
 		fmt.Println("LOAD ERROR:", err)
